@@ -55,12 +55,13 @@ type faultCfg struct {
 }
 
 type world struct {
-	sim    *sched.Sim
-	res    *harness.Result
-	dir    string
-	imgs   map[string]*img // by href
-	byPath map[string]*img
-	fc     faultCfg
+	sim     *sched.Sim
+	res     *harness.Result
+	dir     string
+	imgs    map[string]*img // by href
+	byPath  map[string]*img
+	fc      faultCfg
+	curCall int
 
 	mu        sync.Mutex
 	outcome   map[string]string // href -> "ok" | failure kind, for the current call
@@ -78,6 +79,23 @@ func (w *world) fault(kind string) {
 
 // setOutcome records what happened to the fetch of href in the current call. A failure is
 // final; "ok" replaces "in-flight" only.
+type callKey struct{}
+
+// setOutcomeCtx records what happened to a fetch unless the request belongs to an earlier
+// call (a worker that a cancelled call left behind: what happens to its fetch says nothing
+// about the current call).
+func (w *world) setOutcomeCtx(ctx context.Context, href, o string) {
+	if c, ok := ctx.Value(callKey{}).(int); ok {
+		w.mu.Lock()
+		cur := w.curCall
+		w.mu.Unlock()
+		if c != cur {
+			return
+		}
+	}
+	w.setOutcome(href, o)
+}
+
 func (w *world) setOutcome(href, o string) {
 	w.mu.Lock()
 	cur, ok := w.outcome[href]
@@ -160,17 +178,17 @@ func (b *body) Read(p []byte) (int, error) {
 		return int(n), nil
 	}
 	if err := b.ctx.Err(); err != nil {
-		b.w.setOutcome(b.im.Href, "ctx-done")
+		b.w.setOutcomeCtx(b.ctx, b.im.Href, "ctx-done")
 		return 0, err
 	}
 	if b.off >= len(b.data) {
-		b.w.setOutcome(b.im.Href, "ok") // only a body delivered to its end is a loaded image
+		b.w.setOutcomeCtx(b.ctx, b.im.Href, "ok") // only a body delivered to its end is a loaded image
 		return 0, io.EOF
 	}
 	opts := []sched.Option{{"chunk", 8}, {"err", wt(b.w.fc.bodyErr && !b.im.NoFault, 1)}}
 	if b.w.sim.Park("httpbody:"+b.im.Href, opts) == 1 {
 		b.w.fault("http_body_error")
-		b.w.setOutcome(b.im.Href, "body-error")
+		b.w.setOutcomeCtx(b.ctx, b.im.Href, "body-error")
 		return 0, errors.New("simulated connection reset mid-body")
 	}
 	n := (len(b.data)-b.off)/2 + 1
@@ -217,27 +235,27 @@ func (t transport) RoundTrip(req *http.Request) (*http.Response, error) {
 	switch c {
 	case 1:
 		w.fault("http_404")
-		w.setOutcome(im.Href, "404")
+		w.setOutcomeCtx(req.Context(), im.Href, "404")
 		return mk(404, io.NopCloser(strings.NewReader("not found"))), nil
 	case 2:
 		w.fault("http_500")
-		w.setOutcome(im.Href, "500")
+		w.setOutcomeCtx(req.Context(), im.Href, "500")
 		return mk(500, io.NopCloser(strings.NewReader("boom"))), nil
 	case 3:
 		w.fault("http_transport_error")
-		w.setOutcome(im.Href, "neterr")
+		w.setOutcomeCtx(req.Context(), im.Href, "neterr")
 		return nil, errors.New("simulated dial failure")
 	case 4:
 		w.fault("http_stall_until_timeout")
-		w.setOutcome(im.Href, "stall")
+		w.setOutcomeCtx(req.Context(), im.Href, "stall")
 		<-req.Context().Done()
 		return nil, req.Context().Err()
 	case 5:
 		w.fault("http_oversized_body")
-		w.setOutcome(im.Href, "oversize")
+		w.setOutcomeCtx(req.Context(), im.Href, "oversize")
 		return mk(200, &body{w: w, im: im, ctx: req.Context(), big: 1<<25 + 4096}), nil
 	}
-	w.setOutcome(im.Href, "in-flight")
+	w.setOutcomeCtx(req.Context(), im.Href, "in-flight")
 	return mk(200, &body{w: w, im: im, ctx: req.Context(), data: im.Content}), nil
 }
 
@@ -614,14 +632,22 @@ func runInBubble(cfg harness.Config, idx int, tp *tape.Tape, dir string, res *ha
 	smp := sample{Images: len(w.imgs)}
 	inputPath := filepath.Join(dir, "index.d2")
 
+	// Carry-over (a third of the runs that cancel): workers that a cancelled or timed-out
+	// call left behind are NOT run to completion before the next call starts; they finish
+	// whenever the scheduler lets them, side by side with the next call's workers. From
+	// then on nothing fails and nothing changes, so the next calls have exactly one
+	// correct result: whatever a leftover worker does must not leak into them.
+	carryOver := len(calls) > 1 && w.fc.cancel && tp.Chance(1, 3, "cfg.carryover")
+	calm := false
 	for ci, cs := range calls {
 		w.mu.Lock()
 		w.outcome = map[string]string{}
 		w.doneOrd = nil
+		w.curCall = ci
 		w.mu.Unlock()
 		// images may change between calls (history): with the cache on the first
 		// successful fetch must keep being served.
-		if ci > 0 && tp.Chance(1, 2, "call.mutate") {
+		if ci > 0 && !calm && tp.Chance(1, 2, "call.mutate") {
 			for _, im := range pool {
 				if !im.Data && tp.Chance(1, 3, "call.mutate.one") {
 					im.Content = append([]byte(fmt.Sprintf("v%d:", ci)), im.Content...)
@@ -632,7 +658,7 @@ func runInBubble(cfg harness.Config, idx int, tp *tape.Tape, dir string, res *ha
 				return
 			}
 		}
-		ctx, cancel := context.WithCancel(context.Background())
+		ctx, cancel := context.WithCancel(context.WithValue(context.Background(), callKey{}, ci))
 		type ret struct {
 			out []byte
 			err error
@@ -658,7 +684,7 @@ func runInBubble(cfg harness.Config, idx int, tp *tape.Tape, dir string, res *ha
 			done <- ret{out: out, err: err, at: sim.Now()}
 		}()
 		cancelled := false
-		if w.fc.cancel && tp.Chance(1, 2, "call.cancel") {
+		if w.fc.cancel && !calm && tp.Chance(1, 2, "call.cancel") {
 			go func() {
 				sim.Park("actor:cancel", []sched.Option{{"cancel", 1}})
 				cancelled = true
@@ -694,7 +720,13 @@ func runInBubble(cfg harness.Config, idx int, tp *tape.Tape, dir string, res *ha
 		// Release a pending cancel actor and let workers that outlive a cancelled or
 		// timed-out call finish now, so that they cannot be confused with the next call's.
 		cancel()
-		sim.Flush()
+		if carryOver && ci < len(calls)-1 && (cancelled || elapsed >= 5*time.Minute) {
+			calm = true
+			w.fc = faultCfg{shortRead: w.fc.shortRead}
+			res.Probe("leftover_workers_carried_into_the_next_call")
+		} else {
+			sim.Flush()
+		}
 		if r.pan != "" {
 			res.Fail("C46", "O46.3", "call %d panicked: %s", ci, r.pan)
 		}
